@@ -85,7 +85,7 @@ CHECKS = {
 def main():
     man = {
      "version": 1,
-     "setup_cmd": "python3 tools/py2lean.py && python3 tools/mkaudit.py && cd lean && lake build JaxleyVerif Driver driver",
+     "setup_cmd": "python3 tools/py2lean.py && python3 tools/mkaudit.py && cd lean && lake build",
      "hooks": {
       "guard": "JAXLEY_VERIF",
       "enable": "no source hooks: the harness imports the real jaxley from /repo in-process (PYTHONPATH=/repo) and observes public/underscore attributes; JAXLEY_VERIF=1 is exported for the harness only",
